@@ -10,6 +10,12 @@ from . import extract
 
 def eval_call(ex, e: ast.Call, st: State) -> SV:
     f = e.func
+    # super().__init__(...) of a class whose base is external: no effect on the fields under contract (assumption BASE-INIT)
+    if (isinstance(f, ast.Attribute) and f.attr == '__init__' and isinstance(f.value, ast.Call) and isinstance(f.value.func, ast.Name)
+            and f.value.func.id == 'super' and not f.value.args):
+        for a in e.args:
+            ex.ev(a, st)
+        return SV_NONE
     if any(isinstance(a, ast.Starred) for a in e.args) or any(k.arg is None for k in e.keywords):
         raise Unsupported('star args')
     # generator-consuming builtins must see the generator syntactically
@@ -190,6 +196,18 @@ def builtin(ex, name, pos, kw, st: State) -> SV:
         raise Unsupported('id of non-reference')
     if name == 'print':
         return SV_NONE
+    if name in ('os.path.dirname', 'os.path.basename', 'os.path.abspath', 'os.path.normpath'):
+        fn = z3.Function(name.replace('.', '_'), Str, Str)
+        return SV('str', fn(ex.to_str(pos[0], st).t if pos[0].kind != 'str' else pos[0].t))
+    if name == 'os.path.isabs':
+        fn = z3.Function('os_path_isabs', Str, z3.BoolSort())
+        return sv_bool(fn(pos[0].t if pos[0].kind == 'str' else ex.to_str(pos[0], st).t))
+    if name == 'os.path.join':
+        fn = z3.Function('os_path_join', Str, Str, Str)
+        t = pos[0].t if pos[0].kind == 'str' else ex._must_str(pos[0], st).t
+        for q in pos[1:]:
+            t = fn(t, q.t if q.kind == 'str' else ex._must_str(q, st).t)
+        return SV('str', t)
     if name == 'copy.deepcopy':
         c = ex.reg.by_func.get('deepcopy')
         if c is None:
